@@ -7,6 +7,7 @@ package main
 //   - stores of the zero value into memory obtained from make/new in the same function and not written
 //     since are dropped, and loops consisting only of such stores are dropped with them (make already
 //     zeroes its result);
+//   - tiny read-only search loops with a constant bound are unrolled (unroll.go);
 //   - a local that is initialised once with a by-value parameter and only read afterwards (the spilled copy of a
 //     value receiver that a closure captures or a method reads) is replaced by the parameter;
 //   - objects allocated in the function that are only ever stored into (never read, passed on, captured or
@@ -30,6 +31,7 @@ import (
 )
 
 func normalizeSummary(S *Store, sum *Summary) {
+	unrollSmallLoops(S, sum)
 	forwardParamCopies(S, sum)
 	dropDeadObjects(S, sum)
 	dropZeroInit(S, sum)
